@@ -988,6 +988,7 @@ func Child(prop string, seed int64, tier string, cfgName string, stateFile strin
 	dir, _ := os.MkdirTemp("", "rules")
 	defer os.RemoveAll(dir)
 	p := params(cfg, uint64(seed))
+	chainsim.SetPurge(cfg.Compress && !cfg.Retarget) // the compressed-record configurations also run with the purge-unspendable option
 	s := chainsim.NewSim(run, r, p, dir, chainsim.NodeOpts{CompressUTXO: cfg.Compress})
 	defer s.Close()
 	g := s.G
@@ -1383,7 +1384,7 @@ func malformedProbe(s *chainsim.Sim, run *vlib.Run, g *chainsim.Gen, tip *refcha
 			run.Violation("accepts-invalid/malformed-block", "node accepted a truncated / inconsistent block encoding", wit)
 			return false
 		}
-		if d := chainsim.DiffUTXO(s.N.DumpUTXO(), s.Ref.Utxo); d != "" {
+		if d := chainsim.DiffNodeUTXO(s.N.DumpUTXO(), s.Ref.Utxo); d != "" {
 			wit["utxo_diff"] = d
 			run.Violation("utxo-mismatch/malformed-block", "UTXO set changed by a refused malformed block", wit)
 			return false
